@@ -1190,6 +1190,24 @@ class Interp:
                 return Array.from_fn(1, lambda i: a.at(i, i))
             if a.rank == 1:
                 return Array.from_fn(2, lambda i, j: Expr.delta(i, j) * a.at(i))
+        if short == "sum" and args and isarr(args[0]) and len(args) <= 2 and \
+                isinstance(kwargs.get("axis", args[1] if len(args) == 2 else None), int) and \
+                not isinstance(kwargs.get("axis", args[1] if len(args) == 2 else None), bool) and \
+                set(kwargs) <= {"axis"} and args[0].rank >= 1:
+            # sum over one axis: the result has one index fewer, the summed position carries a bound index
+            a = args[0]
+            ax = kwargs.get("axis", args[1] if len(args) == 2 else None)
+            if not -a.rank <= ax < a.rank:
+                self.err(node, "sum over an axis the array does not have")
+            ax = ax % a.rank
+
+            def fn_sum(*rest):
+                k = ta.fresh("i")
+                full = list(rest[:ax]) + [k] + list(rest[ax:])
+                return a.at(*full).sum_over(k)
+            if a.rank == 1:
+                return fn_sum()
+            return Array.from_fn(a.rank - 1, fn_sum)
         if short == "sum" and len(args) == 1 and isarr(args[0]) and not kwargs:
             a = args[0]
             ks = [ta.fresh("i") for _ in range(a.rank)]
